@@ -109,6 +109,7 @@ func GenConfig(r *rand.Rand, o GenOpt) *Config {
 			if r.Intn(2) == 0 {
 				rule.Name = "rule" // several rules may carry the same name
 			}
+			rule.Legacy = r.Intn(3) == 0
 			c.Inhibit = append(c.Inhibit, rule)
 		}
 	}
